@@ -82,6 +82,8 @@ Definition md_unmarshal_wire (data : bytes) : res (list (bytes * bytes) * Z) :=
   if blen data <? 10 then Err ErrMeta else
   match slice_from 0 data with None => Panic | Some s0 =>
   match rd16 s0 with None => Panic | Some count =>
+  (* every header needs at least 4 bytes: an impossible count is rejected before the map is sized *)
+  if (blen data - 10) / 4 <? count then Err ErrMeta else
   match md_loop (N.to_nat count) data 2 with
   | Panic => Panic
   | Err e => Err e
@@ -107,9 +109,13 @@ Definition hdr_map (h : list (bytes * bytes)) : list (bytes * bytes) :=
   fold_left (fun m kv => hdr_set (fst kv) (snd kv) m) h [].
 
 (* the capacity hint of make(map[string]string, count) — the only allocation whose size is read
-   from the wire inside the metadata decoder; it is below 2^16 entries for every input *)
+   from the wire inside the metadata decoder; 0 when the decoder returns before allocating *)
 Definition md_map_hint (data : bytes) : N :=
-  if blen data <? 10 then 0 else match rd16 data with Some c => c | None => 0 end.
+  if blen data <? 10 then 0 else
+  match rd16 data with
+  | Some c => if (blen data - 10) / 4 <? c then 0 else c
+  | None => 0
+  end.
 
 (* ---------------------------------------------------------------- frames *)
 Section Frame.
